@@ -319,7 +319,10 @@ pub fn sign_real_with(d: &MDesc, world: &World, t: &TxCtx, tap_all: &BTreeSet<[u
 /// Symbolic signature bytes for a key (deterministic, well-formed, low-S).
 pub fn sym_ecdsa(kb: &[u8]) -> Option<bitcoin::ecdsa::Signature> {
     let sk = keys::secret_for(kb)?;
-    let m = sha256::Hash::hash(&[b"mvh-sym-ecdsa", kb].concat()).to_byte_array();
+    // one signature per key (not per serialization): a real signature verifies under the
+    // compressed and the uncompressed form alike
+    let canon = keys::compressed_of(kb).unwrap_or_else(|| kb.to_vec());
+    let m = sha256::Hash::hash(&[&b"mvh-sym-ecdsa"[..], &canon[..]].concat()).to_byte_array();
     let sig = u().secp.sign_ecdsa(&Message::from_digest(m), &sk);
     Some(bitcoin::ecdsa::Signature { signature: sig, sighash_type: EcdsaSighashType::All })
 }
@@ -353,6 +356,10 @@ pub fn sign_symbolic(
         if let Some(sig) = sym_ecdsa(kb) {
             // the signature is valid whether or not the world holds the key
             chk.ecdsa.insert((kb.clone(), sig.to_vec()));
+            if let Ok(p) = secp256k1::PublicKey::from_slice(kb) {
+                chk.ecdsa.insert((p.serialize().to_vec(), sig.to_vec()));
+                chk.ecdsa.insert((p.serialize_uncompressed().to_vec(), sig.to_vec()));
+            }
             if world.has_key_bytes(kb) {
                 s.ecdsa.insert(kb.clone(), sig);
             }
